@@ -234,13 +234,21 @@ def rule_rate(ctx):
     ctx.ob('C01.rate', f'{mod.name}:BinaryOpUGen._init_ugen:wiring', ok1 and ok2 and ok3,
            'BinaryOpUGen must set operator, rate=_determine_rate(a,b), inputs=(a,b) in that operand order', f.node, mod)
     # MulAdd._init_ugen
-    f = ctx.repo.func('sc3.synth.ugen:MulAdd._init_ugen')
-    ps = f.params
-    ok = any(isinstance(s, ast.Assign) and norm(s.targets[0]) == 'self._rate' and
+    f = ctx.repo.try_func('sc3.synth.ugen:MulAdd._init_ugen')
+    if f is None:
+        ma = ctx.repo.cls('sc3.synth.ugen:MulAdd')
+        ctx.ob('C01.rate', f'{mod.name}:MulAdd._init_ugen:rate', False,
+               'MulAdd has no _init_ugen of its own: MulAdd.new computes one rate over the unexpanded argument lists and _multi_new hands it '
+               'to every expanded unit, so a control-rate channel of a mixed list becomes an audio-rate MulAdd (the override re-derives the '
+               'rate from each unit\'s own inputs)', ma.node, mod)
+        f = None
+    ps = f.params if f is not None else []
+    ok = f is not None and any(isinstance(s, ast.Assign) and norm(s.targets[0]) == 'self._rate' and
              norm(s.value) == 'gpp.ugen_param(self.inputs)._as_ugen_rate()' for s in f.node.body) and \
         any(isinstance(s, ast.Assign) and norm(s.targets[0]) == 'self._inputs' and
             norm(s.value) == f'({ps[1]}, {ps[2]}, {ps[3]})' for s in f.node.body)
-    ctx.ob('C01.rate', f'{mod.name}:MulAdd._init_ugen:rate', ok, 'MulAdd rate must be the reduction over its inputs', f.node, mod)
+    if f is not None:
+        ctx.ob('C01.rate', f'{mod.name}:MulAdd._init_ugen:rate', ok, 'MulAdd rate must be the reduction over its inputs', f.node, mod)
     # Sum3/Sum4: rate = ugen_param(arg_list)._as_ugen_rate() over all operands, passed to super()._new1
     for cname, nargs in (('Sum3', 3), ('Sum4', 4)):
         f = ctx.repo.func(f'sc3.synth.ugen:{cname}._new1')
@@ -872,6 +880,8 @@ def run(ctx):
 
 
 MUTANTS = [
+    dict(rule='C01.rate', name='MulAdd._init_ugen override removed (seed C03-d)', file='sc3/synth/ugen.py',
+         old="    def _init_ugen(self, input, mul, add):  # override\n        self._inputs = (input, mul, add)\n        self._rate = gpp.ugen_param(self.inputs)._as_ugen_rate()\n        return self  # Must return self.\n\n", new=""),
     dict(rule='C01.dce', name='(fix reverted) DCE removes the edge with set.remove per input slot', file='sc3/synth/ugen.py',
          old="                    input._descendants.discard(self)", new="                    input._descendants.remove(self)"),
     dict(rule='C01.opc', name='swap two unary rows', file='sc3/synth/_specialindex.py',
